@@ -131,10 +131,12 @@ def _run(ctx, pq):
         cmds.append(("analyse_paths", [L.enc(p) for p in paths], [] if root is None else [L.enc(root)]))
         meta.append(({"corr": "analyse_paths", "shape": shape, "paths": paths, "root": root}, impl))
     outs_a = pq.batch(cmds)
-    if getattr(ctx, "gen_paths", False):       # the regenerated text itself, evaluated by the kernel, against the real functions
+    units = getattr(ctx, "gen_paths", None) or set()
+    if units & {"analyse", "strip"}:       # the regenerated text itself, evaluated by the kernel, against the real functions
         pick = [m[0] for m in meta if all(L.coq_ascii_ok(p) for p in m[0]["paths"]) and m[0]["paths"]]
         pick = rng.sample(pick, min(len(pick), 40))
-        L.gen_paths_samples(ctx, [(c["paths"], c["root"]) for c in pick] + [([], None)], [p for c in pick[:12] for p in c["paths"][:2]])
+        L.gen_paths_samples(ctx, ([(c["paths"], c["root"]) for c in pick] + [([], None)]) if "analyse" in units else [],
+                            [p for c in pick[:12] for p in c["paths"][:2]] if "strip" in units else [])
     samples = []
     L.sample_pq(samples, cmds, outs_a, rng, 10)
     for cmd in [("merge", [b"/d/a.parquet", b"/d/b.parquet", b"/d/c.parquet"],
